@@ -55,7 +55,13 @@ fn probes_for(ws: &ModelWs, r: &mut Rng, n: usize) -> Vec<(Q, u32, u32)> {
         let tt = vh::ws::token_table(&f.text);
         let bounds: Vec<usize> = tt.bounds.iter().copied().collect();
         let b = bounds[r.below(bounds.len())];
-        let q = match r.below(8) {
+        let q = match r.below(9) {
+            8 => {
+                // range-restricted highlight (any sub-range, also one reaching past the end)
+                let a = r.below(f.text.len() + 1) as u32;
+                let e = a + r.below(f.text.len() + 8) as u32;
+                Q::HlRange(a, e)
+            }
             0 => Q::Hover,
             1 => Q::Goto,
             2 => Q::Refs,
@@ -188,6 +194,8 @@ fn run_scenario(rep: &mut Report, case_seed: u64) {
             while let Ok(job) = rx.recv() {
                 let started = Instant::now();
                 let mut i = dr.below(probes.len());
+                let mut after_cancel = 0usize;
+                let extra_after_cancel = dr.below(3);
                 'sweep: loop {
                     if started.elapsed().as_millis() > READER_CAP_MS {
                         break;
@@ -208,7 +216,13 @@ fn run_scenario(rep: &mut Report, case_seed: u64) {
                     let cancelled = matches!(outcome, RecOutcome::Cancelled);
                     recs.lock().unwrap().push(Rec { reader: ri, tag: job.tag, probe: i % probes.len(), start_ms, outcome });
                     if cancelled {
-                        break 'sweep;
+                        // A task does not always notice at once: one or two more queries are
+                        // ENTERED on the cancelled snapshot (they must report cancellation or
+                        // answer for the snapshot's version like any other) before it is let go.
+                        after_cancel += 1;
+                        if after_cancel > extra_after_cancel {
+                            break 'sweep;
+                        }
                     }
                     i += 1;
                 }
